@@ -1,4 +1,5 @@
 """C10 - H.roll and P.roll sample exactly the encoded distribution."""
+import json
 from fractions import Fraction
 
 from common import chist, clist, cq, cres, qv
@@ -32,13 +33,73 @@ def gen_cases(rng, tier):
         else:
             dice, shape = pools.gen_pool(rng, max_dice=4, max_faces=3)
             cases.append({"kind": "p", "dice": dice, "shape": shape})
+    for i in range(max(4, n // 25)):
+        # symbolic (unorderable) outcomes among numbers: some rolls sort, some do not
+        nd = rng.randint(2, 3)
+        dice = []
+        for _ in range(nd):
+            faces = rng.sample([1, 2, 3, "x", "y"], rng.randint(1, 3))
+            dice.append([[f, rng.choice([1, 1, 2])] for f in faces])
+        if not any(isinstance(f, str) for d in dice for f, _ in d):
+            dice[0].append(["x", 1])
+        cases.append({"kind": "p_sym", "sym_dice": dice})
     return cases
+
+
+class Sym:
+    """an outcome that cannot be ordered against numbers or other symbols (like a sympy symbol)"""
+
+    def __init__(self, name):
+        self.name = name
+
+    def __repr__(self):
+        return self.name
+
+    def __hash__(self):
+        return hash(("Sym", self.name))
+
+    def __eq__(self, other):
+        return isinstance(other, Sym) and other.name == self.name
+
+
+def _impl_sym(case):
+    """pools with unorderable outcomes (outside the rational model): one question per die, and the sampling
+    distribution equals the brute-force enumeration of the dice (multisets of outcomes, compared through repr)"""
+    from dyce import H, P
+
+    def out(v):
+        return Sym(v) if isinstance(v, str) else v
+    p = P(*[H({out(o): c for o, c in d}) for d in case["sym_dice"]])
+
+    def action():
+        return {"ok": sorted(repr(x) for x in p.roll())}
+    paths, exhaustive = rl.explore(action)
+    got = {}
+    for pa in paths:
+        key = json.dumps(pa["result"].get("ok"))
+        got[key] = got.get(key, Fraction(0)) + Fraction(*pa["prob"])
+    import itertools
+    want = {}
+    tot = 1
+    for d in case["sym_dice"]:
+        tot *= sum(c for _, c in d)
+    for combo in itertools.product(*case["sym_dice"]):
+        cnt = 1
+        for _, c in combo:
+            cnt *= c
+        key = json.dumps(sorted(repr(out(o)) for o, _ in combo))
+        want[key] = want.get(key, Fraction(0)) + Fraction(cnt, tot)
+    want = {k: v for k, v in want.items() if v}
+    return {"sym_ok": got == want and exhaustive, "asks_ok": all(len(pa["asks"]) == len(p) for pa in paths),
+            "npaths": len(paths), "paths": [], "reproducible": True}
 
 
 def impl_run(case):
     import random
     import dyce.rng
     from dyce import H
+    if case["kind"] == "p_sym":
+        return _impl_sym(case)
     stored = None
     if case["kind"] == "h":
         d = gens.py_hist_dict(case["h"])
@@ -100,6 +161,8 @@ def impl_run(case):
 
 
 def coq_check(case, r):
+    if case["kind"] == "p_sym":
+        return None          # outside the model's outcome domain: decided by the self-consistency oracle
     if "paths" not in r:
         return "MISMATCH"
     parts = []
@@ -118,6 +181,8 @@ def coq_show(case):
 
 
 def oracle(case):
+    if case["kind"] == "p_sym":
+        return {"spec": "one question per die; sampling distribution = brute force over the dice"}
     if case["kind"] == "h":
         t = sum(c for _, c in case["h"])
         if t == 0:
@@ -135,6 +200,8 @@ def oracle(case):
 
 
 def agree(case, r, o):
+    if case["kind"] == "p_sym":
+        return bool(r.get("sym_ok") and r.get("asks_ok"))
     if "paths" not in r or not r.get("reproducible"):
         return False
     got = {}
@@ -165,6 +232,8 @@ def nontrivial(case, r):
 
 
 def case_class(case, r):
+    if case["kind"] == "p_sym":
+        return "p:symbolic" + ("" if r.get("sym_ok") else ":BAD")
     if case["kind"] == "h":
         t = sum(c for _, c in case["h"])
         return "h:" + ("empty" if not case["h"] else "zero-total" if t == 0 else "pos")
